@@ -172,6 +172,55 @@ def conversions_and_fromscalars(ctx, T, db, r, n_cases):
             ctx.violation("conversion-raised:%s" % type(e).__name__, dict(case, error=str(e)[:200]), replay=case)
 
 
+def offset_twins(ctx, T, db, r):
+    """Units of one quantity type with the same scale and another zero (bar / bar(g), psia / psig, degF / degR, delta
+    temperatures): every such ordered pair, every container kind - conversions and + / - against the Scalars. A route
+    that decides "same factor, nothing to convert" is wrong exactly here, and a random pair almost never lands here."""
+    from barril.units import Array, Scalar
+
+    by_type = {}
+    for u, a in T.aff.items():
+        if a.exact and a.slope and a.qt != "Unknown":
+            by_type.setdefault(a.qt, []).append((u, a))
+    pairs = []
+    for qt, lst in sorted(by_type.items()):
+        for u, au in lst:
+            for v, av in lst:
+                if u != v and au.off != av.off and abs(au.slope / av.slope - 1) <= 1e-12:
+                    pairs.append((qt, u, v))
+    ctx.count("same-scale / other-zero unit pairs", len(pairs))
+    for k, (qt, u, v) in enumerate(pairs):
+        if k % ctx.nshards != ctx.shard:
+            continue
+        vals = [r.choice([1.0, 2.5, -3.0, 0.0, 100.0]), 7.0, -0.5]
+        case = {"qt": qt, "u": u, "v": v, "values": vals}
+        ctx.nt(("offset twins", qt, u, v))
+        try:
+            conv_s = [Scalar(x, u).GetValue(v) for x in vals]
+            sum_s = [(Scalar(x, v) + Scalar(x, u)).GetValue() for x in vals]
+            dif_s = [(Scalar(x, v) - Scalar(x, u)).GetValue() for x in vals]
+        except Exception as e:
+            ctx.ev()
+            ctx.violation("offset-twins:scalar-reference-raised", dict(case, error=repr(e)[:160]), replay=case)
+            continue
+        for cont in CONTS:
+            ctx.ev()
+            try:
+                arr = Array(programs.make_container(vals, cont), u)
+                got = list(arr.GetValues(v))
+                cp = list(arr.CreateCopy(unit=v).GetValues())
+                for c2 in CONTS:
+                    other = Array(programs.make_container(vals, c2), v)
+                    gs, gd = list((other + arr).GetValues()), list((other - arr).GetValues())
+                    if not all(close(g, x) for g, x in zip(gs, sum_s)) or not all(close(g, x) for g, x in zip(gd, dif_s)):
+                        ctx.violation("offset-twins:+/-:%s/%s" % (c2, cont), dict(case, got_sum=gs, scalar_sum=sum_s, got_difference=gd, scalar_difference=dif_s), replay=case)
+            except Exception as e:
+                ctx.violation("offset-twins:raised:%s" % cont, dict(case, error=repr(e)[:160]), replay=case)
+                continue
+            if not all(close(g, x) for g, x in zip(got, conv_s)) or not all(close(g, x) for g, x in zip(cp, conv_s)):
+                ctx.violation("offset-twins:GetValues(unit):%s" % cont, dict(case, got=got, copy=cp, scalar=conv_s), replay=case)
+
+
 def integer_containers(ctx, T, db, r, n_cases):
     """One operand holds integers (int64 / int32 ndarray, or a list of ints), the other non-integral floats in
     another container kind: the result must still be the elementwise Scalar result (no operand may be cast to
@@ -254,4 +303,5 @@ def run(ctx):
                     ctx.sample({"a": programs.render(sa), "b": programs.render(sb), "op": opn, "lengths": [n, nb]})
         conversions_and_fromscalars(ctx, T, db, r, 300 if ctx.tier == "quick" else 5000)
         integer_containers(ctx, T, db, ctx.rng("ints"), 400 if ctx.tier == "quick" else 8000)
+        offset_twins(ctx, T, db, ctx.rng("twins"))
     ctx.inconclusive_if(probe.COUNTS["Array.__add__"] == 0 or probe.COUNTS["Array.__floordiv__"] == 0 or probe.COUNTS["Array.FromScalars"] == 0, "Array operators never reached")
